@@ -85,6 +85,17 @@ fn program(globals: &[GlobalCfg], stanzas: bool) -> String {
     for (i, _) in globals.iter().enumerate() {
         t.push_str(&format!("  let c{} = [ g{} for y in [1, 2] ]\n  attr (n) in_comp{} = c{}\n", i, i, i, i));
     }
+    // uses that only the declared quantifier allows (a list global is iterated, an optional one is
+    // tested): checked when the file is loaded, never run
+    t.push_str("  if #false {\n");
+    for (i, g) in globals.iter().enumerate() {
+        if g.quant == "*" || g.quant == "+" {
+            t.push_str(&format!("    for e in g{} {{ print e }}\n    print [ e for e in g{} ], {{ e for e in g{} }}\n", i, i, i));
+        } else if g.quant == "?" {
+            t.push_str(&format!("    if some g{} {{ print g{} }} elif none g{} {{ }}\n", i, i, i));
+        }
+    }
+    t.push_str("  }\n");
     t.push_str("}\n\n(module)\n{\n  node m\n");
     for (i, _) in globals.iter().enumerate() {
         t.push_str(&format!("  attr (m) second_stanza{} = g{}\n", i, i));
@@ -137,7 +148,16 @@ fn run_config(globals: &[GlobalCfg], nested: bool, stanzas: bool, out: &mut Out)
     let case = || {
         json!({"dsl": text, "globals": globals.iter().map(|g| json!({"quant": g.quant, "default": g.default, "supplied": g.supply.as_ref().map(|v| v.to_json())})).collect::<Vec<_>>(), "nested_variable_set": nested})
     };
-    let file = match exec::load(&text) {
+    // one configuration in four loads the file on another thread than the one that builds the
+    // caller's variables and executes (a loaded file may be handed from thread to thread)
+    let cross_thread = crate::util::hash_str(&text) % 4 == 0;
+    let loaded = if cross_thread {
+        out.feat("file_loaded_on_another_thread");
+        std::thread::scope(|s| s.spawn(|| exec::load(&text)).join()).unwrap_or_else(|_| exec::load(&text))
+    } else {
+        exec::load(&text)
+    };
+    let file = match loaded {
         Loaded::Ok(f) => f,
         Loaded::Err(e) => {
             out.violation("C16:load-rejected", &format!("valid global declarations rejected: {:?}", e), case());
